@@ -15,7 +15,7 @@ Require Import PV.Front.GaussQc.
 Import ListNotations.
 
 Inductive kind := Dense | Sparse | Symbolic.
-Inductive exn := ValueError | TypeError | IndexError.
+Inductive exn := ValueError | TypeError | IndexError | ZeroDivisionError.
 
 Section Model.
 Variable F : Fld.
@@ -140,40 +140,50 @@ Definition shape_ok (eA eB : eigs) (M : mat) : bool :=
 Definition checked (eA eB : eigs) (M : mat) (f : mat -> outcome) : outcome :=
   if shape_ok eA eB M then f M else OUnmodelled.
 
+(* the part of the call after the shared-eigenvalue test: dispatch on vecs_implicit and on
+   the type of Y, in the order of the if-chain *)
+Definition dispatch (Y : rhs) (i j : nat) (eA eB : eigs) : outcome :=
+  let last := length E - 1 in
+  let explicit :=
+    match Y with
+    | YMat k M =>
+      match k, eA, eB with
+      | Symbolic, EScalar0, EScalar0 =>
+        (* both eigenvalue arrays are 0-d integer arrays (zero blocks): np.array(.., dtype=object)
+           holds Python ints and [1 / (0 - 0)] raises instead of giving zoo.  Reported defect;
+           only reachable with i = j (for i <> j the shared-eigenvalue test fires first). *)
+        ORaise ZeroDivisionError
+      | _, _, _ => checked eA eB M (fun M => of_opt (sylv_diag (guard k) eA eB M))
+      end
+    | _ => ORaise TypeError
+    end in
+  match vimp, Y with
+  | Some W, YMat _ M =>
+    if j =? last then
+      (* ((Y @ W) * (1 / dE)) @ Dagger(W) *)
+      checked eA eB (mmul M W) (fun T0 =>
+        match sylv_raw eA eB T0 with
+        | Some T => OVal (mmul T (dagger W)) | None => ODivTol end)
+    else if i =? last then
+      (* W @ ((Dagger(W) @ Y) * (1 / dE)) *)
+      checked eA eB (mmul (dagger W) M) (fun T0 =>
+        match sylv_raw eA eB T0 with
+        | Some T => OVal (mmul W T) | None => ODivTol end)
+    else explicit
+  | Some _, _ =>
+    if (j =? last) || (i =? last) then OUnmodelled else explicit
+  | None, _ => explicit
+  end.
+
 Definition solve (st : state) (Y : rhs) (i j : nat) : outcome * state :=
   match Y with
   | YZero => (OZero, st)
   | _ =>
     match nth_error E i, nth_error E j with
     | Some eA, Some eB =>
-      let k := kind_of Y in
       let need := negb (i =? j) && negb (memp (i, j) st) in
-      if need && shares k eA eB then (ORaise ValueError, st)
-      else
-        let st' := if need then (i, j) :: st else st in
-        let last := length E - 1 in
-        let explicit :=
-          match Y with
-          | YMat k M => checked eA eB M (fun M => of_opt (sylv_diag (guard k) eA eB M))
-          | _ => ORaise TypeError
-          end in
-        match vimp, Y with
-        | Some W, YMat _ M =>
-          if j =? last then
-            (* ((Y @ W) * (1 / dE)) @ Dagger(W) *)
-            (checked eA eB (mmul M W) (fun T0 =>
-               match sylv_raw eA eB T0 with
-               | Some T => OVal (mmul T (dagger W)) | None => ODivTol end), st')
-          else if i =? last then
-            (* W @ ((Dagger(W) @ Y) * (1 / dE)) *)
-            (checked eA eB (mmul (dagger W) M) (fun T0 =>
-               match sylv_raw eA eB T0 with
-               | Some T => OVal (mmul W T) | None => ODivTol end), st')
-          else (explicit, st')
-        | Some _, _ =>
-          if (j =? last) || (i =? last) then (OUnmodelled, st') else (explicit, st')
-        | None, _ => (explicit, st')
-        end
+      if need && shares (kind_of Y) eA eB then (ORaise ValueError, st)
+      else (dispatch Y i j eA eB, if need then (i, j) :: st else st)
     | _, _ => (ORaise IndexError, st)
     end
   end.
@@ -200,3 +210,38 @@ Arguments OVal {F} V.
 Arguments ORaise {F} e.
 Arguments ODivTol {F}.
 Arguments OUnmodelled {F}.
+
+(* ---------------- boolean comparisons used by the harness and the Examples ---------------- *)
+
+Section Eqb.
+Variable F : Fld.
+
+Fixpoint list_eqb {A} (e : A -> A -> bool) (l1 l2 : list A) : bool :=
+  match l1, l2 with
+  | [], [] => true
+  | a :: r1, b :: r2 => e a b && list_eqb e r1 r2
+  | _, _ => false
+  end.
+
+Definition mat_eqb (A B : mat F) : bool := list_eqb (list_eqb (keqb F)) A B.
+
+Definition exn_eqb (a b : exn) : bool :=
+  match a, b with
+  | ValueError, ValueError | TypeError, TypeError | IndexError, IndexError
+  | ZeroDivisionError, ZeroDivisionError => true
+  | _, _ => false
+  end.
+
+Definition outcome_eqb (a b : outcome F) : bool :=
+  match a, b with
+  | OZero, OZero => true
+  | OVal A, OVal B => mat_eqb A B
+  | ORaise x, ORaise y => exn_eqb x y
+  | ODivTol, ODivTol => true
+  | OUnmodelled, OUnmodelled => true
+  | _, _ => false
+  end.
+
+Definition outcomes_eqb (a b : list (outcome F)) : bool := list_eqb outcome_eqb a b.
+
+End Eqb.
